@@ -43,6 +43,15 @@ class LMap:
         return -1
 
 
+class LChan:
+    __slots__ = ("q", "cap", "closed")
+
+    def __init__(self, cap):
+        self.q = []
+        self.cap = cap
+        self.closed = False
+
+
 class Cell:
     __slots__ = ("v",)
 
@@ -211,6 +220,9 @@ def declared_fields(body):
         if t in ("set",) and e[1] == ["self"]:
             if e[2] not in out:
                 out.append(e[2])
+        if t == "atset":
+            if e[1] not in out:
+                out.append(e[1])
         if t == "opset" and e[2] == ["self"]:
             if e[3] not in out:
                 out.append(e[3])
@@ -667,6 +679,26 @@ class Interp:
             o = self.eval(e[1], env)
             args = [self.eval(a, env) for a in e[3]]
             return self.invoke(o, e[2], args)
+        if t == "at":
+            return self.get_prop(self.lookup(env, "self").v, e[1])
+        if t == "atset":
+            v = self.eval(e[2], env)
+            return self.set_prop(self.lookup(env, "self").v, e[1], v)
+        if t == "chan":
+            cap = self.eval(e[1], env) if e[1] is not None else None
+            return LChan(int(cap) if cap is not None else 0)
+        if t == "send":
+            ch = self.eval(e[1], env)
+            v = self.eval(e[2], env)
+            if not isinstance(ch, LChan) or ch.closed or len(ch.q) >= ch.cap:
+                raise Unsupported("send that would block or fail")
+            ch.q.append(v)
+            return v
+        if t == "recv":
+            ch = self.eval(e[1], env)
+            if not isinstance(ch, LChan) or not ch.q:
+                raise Unsupported("receive that would block")
+            return ch.q.pop(0)
         if t == "super":
             # ['super', name, args|None]
             me = self.lookup(env, "self").v
@@ -941,6 +973,16 @@ class Printer:
             return self.sub(e[2], 10) + "." + e[3] + " " + e[1] + "= " + self.sub(e[4], 1), 1
         if t == "invoke":
             return self.sub(e[1], 10) + "." + e[2] + "(" + ", ".join(self.sub(a, 1) for a in e[3]) + ")", 10
+        if t == "at":
+            return "@" + e[1], 11
+        if t == "atset":
+            return "@" + e[1] + " = " + self.sub(e[2], 1), 1
+        if t == "chan":
+            return "chan(" + (self.ex(e[1])[0] if e[1] is not None else "") + ")", 10
+        if t == "send":
+            return self.sub(e[1], 10) + " <- " + self.sub(e[2], 2), 1
+        if t == "recv":
+            return "<- " + self.sub(e[1], 10), 9
         if t == "super":
             if e[2] is None:
                 return "super." + e[1], 10
